@@ -9,7 +9,7 @@ for active and passive endpoints; prop/Recovery.tla judges detection, dial timin
 dial count, recovery with a round trip in both directions, the reconnect counter, the reconnecting gauge
 and silence after Close."""
 import json, os
-from . import common
+from . import common, s1common
 
 
 def run(ctx):
@@ -53,12 +53,24 @@ def run(ctx):
         ctx.violation("recovery scenario rejected by prop/Recovery clause %s (%s), %d scenario(s); first: offset %s refused %s msg %r"
                       % (g["clause"], sig, g["n"], g["first"].get("fault", {}).get("offset"), g["first"].get("refused"), g["first"].get("fault_msg")),
                       dict(binding="B2 fault enumeration + acceptor", signature=sig, clause=g["clause"], occurrences=g["n"], scenario=g["first"]))
+    # the SECS-I transport: the generation is lost (peer close with sends pending / a handler busy) and must come back Selected
+    # and working; an active endpoint's reconnect counter moves by exactly one per successful re-dial
+    s1obs = s1common.record(ctx, "gen", passes=1 if ctx.quick else 6)
+    s1lines, s1rejs, _ = s1common.judge(ctx, s1obs, ("e4gen",))
+    s1g = {}
+    for d, why in s1rejs:
+        if why in ("GenNoNextGeneration", "GenFreshSendLost", "RecReconnectCounterNotOnePerRedial"):
+            g = s1g.setdefault("c11:secs1:%s:%s" % (why, d["mode"]), dict(n=0, first=d))
+            g["n"] += 1
+    for sig, g in sorted(s1g.items()):
+        ctx.violation("SECS-I connection did not recover after losing its generation (%s), %d scenario(s): %s" % (sig, g["n"], common.short(g["first"], 500)),
+                      dict(binding="B2 E4 reference peer + OracleE4", signature=sig, occurrences=g["n"], observation=g["first"]))
     nbo = len(open(bo).read().splitlines())
     ctx.cov.update(states=res["states"], transitions=res["transitions"], traces_validated_against_impl=len(lines),
                    evaluations=len(lines) + nbo, distinct_nontrivial=len(distinct),
                    rule="one evaluation = one fault scenario on a live connection (or one backoff grid point); distinct = distinct "
                         "(role, exchange, fault mode, byte offset, refused dials, backoff config); all non-trivial (each must detect, re-dial on schedule and recover)",
-                   fault_classes=classes, backoff_grid_points=nbo, harness_faults=stats["faults"], disturbed_scenarios_not_judged=disturbed, byte_offset_stride=3 if ctx.quick else 1,
+                   fault_classes=classes, backoff_grid_points=nbo, harness_faults=stats["faults"], disturbed_scenarios_not_judged=disturbed, secs1_recovery_scenarios=len(s1lines), byte_offset_stride=3 if ctx.quick else 1,
                    exhaustive=False, samples=samples, checker_cmd="vh backoff; vh recov; tlc OracleRecovery")
     ctx.assumptions += ["timers scaled down: T5 60..200 ms, initial backoff 15..40 ms, T6 150 ms, T7 200 ms, T8 100 ms, linktest 60 ms, write timeout 150 ms",
                         "dial-gap lower bound = schedule - 2 ms; upper bound = schedule + 200 ms + jitter",
